@@ -37,6 +37,10 @@ class PathLimit(InterpError):
     pass
 
 
+class Infeasible(Exception):
+    """The decisions taken on this path contradict each other (path is discarded)."""
+
+
 # --------------------------------------------------------------------------
 # values
 
@@ -229,11 +233,17 @@ def enumerate_paths(run, max_paths=20000):
     while stack:
         prefix = stack.pop()
         o = Oracle(prefix)
-        res = run(o)
+        try:
+            res = run(o)
+            feasible = True
+        except Infeasible:
+            res = None
+            feasible = False
         n += 1
         if n > max_paths:
             raise PathLimit('more than %d paths' % max_paths)
-        yield o.trace, res
+        if feasible:
+            yield o.trace, res
         for i in range(len(o.trace) - 1, len(prefix) - 1, -1):
             stack.append([v for _, v in o.trace[:i]] + [True])
 
@@ -762,6 +772,8 @@ class Interp:
                 if self.truth(x) == want:
                     return want
             return not want
+        if d in ('builtins.set', 'builtins.frozenset') and args and is_abstract(args[0]):
+            return Unknown('set(abstract)')
         if d in ('builtins.list', 'builtins.tuple', 'builtins.set') and args:
             items = list(self.iterate(args[0]))
             return {'builtins.list': list, 'builtins.tuple': tuple, 'builtins.set': set}[d](items)
